@@ -1,5 +1,5 @@
 (* C04 - Decoding never panics, whatever bytes arrive. *)
-From MQ Require Import Model.Stream Proofs.StreamP Proofs.DecP Proofs.ReadP Model.WireDecIR Proofs.WireDecIRP gen.GenWireDec gen.SyncWireDec.
+From MQ Require Import Model.Stream Proofs.StreamP Proofs.DecP Proofs.ReadP Model.WireDecIR Proofs.WireDecIRP gen.GenWireDec gen.SyncWireDec Model.BufIR Proofs.BufIRP gen.GenBuf gen.SyncBuf.
 
 (* UnmarshalBinary of every packet type, on every receiver state and
    every byte string, returns normally (Panic is produced in the model
@@ -60,3 +60,18 @@ Example C04_wire_dec_example :
   /\ run_wdec (dprog_of U8) (WVn 0) [] = Panic
   /\ run_wdec (dprog_of Vb) (WVn 0) [x80; x80; x80; x80; x01] = Err ESizeExceeded.
 Proof. vm_compute. repeat split; reflexivity. Qed.
+
+(* ... and get_with, the guarded reader those decoders are called through
+   (a failed reader does nothing more; an exhausted one fails with "missing
+   data"; a decoder error is kept; the cursor advances by the width of the
+   value now held and is clamped, with "missing data", to the end of the
+   data), is buffer.get as it stands in the source: its regenerated statement
+   list, run with any decoder and any width function on any reader state, is
+   get_with - same value, same reader state afterwards, panic exactly where
+   the decoder panics. *)
+Theorem C04_guarded_reader_is_the_source :
+  g_get_prog = get_prog /\
+  forall (A : Type) (dc : list byte -> outcome A) (wd : A -> nat) (s0 : dstate),
+    run_get dc wd get_prog s0 = get_with dc wd s0.
+Proof. exact (conj sync_get_prog (@get_is_prog)). Qed.
+Print Assumptions C04_guarded_reader_is_the_source.
